@@ -380,14 +380,14 @@ func (gen *generator) gepInstType(elemType, src types.Type, indices []ast.TypeVa
 			idx = gen.getIndex(indexVal)
 		} else {
 			idx = gep.Index{HasVal: false}
-			// Check if index is of vector type.
-			indexType, err := gen.irType(index.Typ())
-			if err != nil {
-				return nil, errors.WithStack(err)
-			}
-			if indexType, ok := indexType.(*types.VectorType); ok {
-				idx.VectorLen = indexType.Len
-			}
+		}
+		// Check if index is of vector type.
+		indexType, err := gen.irType(index.Typ())
+		if err != nil {
+			return nil, errors.WithStack(err)
+		}
+		if indexType, ok := indexType.(*types.VectorType); ok {
+			idx.VectorLen = indexType.Len
 		}
 		idxs = append(idxs, idx)
 	}
@@ -455,9 +455,12 @@ func (gen *generator) getIndex(index ast.Constant) gep.Index {
 					}
 				}
 			default:
-				// TODO: remove debug output.
-				panic(fmt.Errorf("support for gep index vector element type %T not yet implemented", elem))
-				//return gep.Index{HasVal: false}
+				// e.g. undef, poison or a constant expression element; the index
+				// vector does not have a concrete value.
+				return gep.Index{
+					HasVal:    false,
+					VectorLen: uint64(len(elems)),
+				}
 			}
 		}
 		return gep.Index{
@@ -472,9 +475,7 @@ func (gen *generator) getIndex(index ast.Constant) gep.Index {
 	case *ast.PoisonConst:
 		return gep.Index{HasVal: false}
 	default:
-		// TODO: add support for more constant expressions.
-		// TODO: remove debug output.
-		panic(fmt.Errorf("support for gep index type %T not yet implemented", index))
-		//return gep.Index{HasVal: false}
+		// Constant expression; no concrete value known without evaluating it.
+		return gep.Index{HasVal: false}
 	}
 }
